@@ -41,6 +41,11 @@ def _two(ctx):
 
 
 LOCAL = {
+    # slice masks: chunks that lie entirely outside the slice are skipped (first_chunk_in offsets)
+    "sum@slice1": ("reduce", lambda g, c: g.sum(c.V, mask=slice(1, None))),
+    "first@slice2": ("reduce", lambda g, c: g.first(c.V, mask=slice(2, None))),
+    "count@slice-2": ("reduce", lambda g, c: g.count(c.V, mask=slice(-2, None))),
+    "size@slice1-3": ("reduce", lambda g, c: g.size(mask=slice(1, 3))),
     "sum_2col": ("reduce", lambda g, c: g.sum(_two(c), mask=c.M)),
     "first_2col": ("reduce", lambda g, c: g.first(_two(c), mask=c.M)),
     "last_2col_t": ("aligned", lambda g, c: g.last(_two(c), mask=c.M, transform=True)),
@@ -49,7 +54,8 @@ LOCAL = {
     "ema_2col": ("aligned", lambda g, c: g.ema(_two(c), alpha=0.5, mask=c.M)),
 }
 RED = ["size", "count", "sum", "mean", "min", "max", "first", "last", "var", "sum_t", "last_t",
-       "sum_2col", "first_2col", "last_2col_t", "sum@nosort", "first@nosort"]
+       "sum_2col", "first_2col", "last_2col_t", "sum@nosort", "first@nosort",
+       "sum@slice1", "first@slice2", "count@slice-2", "size@slice1-3"]
 OTHER = ["cumsum", "cummax", "rolling_sum", "shift", "ema_alpha", "median", "apply_sum_2col",
          "cumsum_2col", "ema_2col", "head2", "groups", "count_t", "mean_t"]
 ORDER_SENSITIVE = {"first", "last", "first_2col", "last_2col_t", "sum_2col", "min", "groups",
